@@ -1076,3 +1076,38 @@ def precedence_per_operand(run, R="MATCH"):
     per_operand = any(re.search(r"(per_operand|literal_operand|compare_specificity)", n) for _, n in callee_names(mi))
     run.check(per_operand or not total, R, R + "|precedence|per-operand", mi.loc(), "literal-over-expression precedence is decided per operand",
               "match_instr keeps the candidates with the largest total count of literal pattern characters over the whole rule: with `op a, {y}` and `op {x}, ({y})`, the line `op a, (5)` is encoded by the second rule (5 literal characters against 4) although the first spells the operand `a` literally - `220705` with `a = 7` defined, `unknown symbol a` without")
+
+
+def matcher_candidate_order(run, R="GATE"):
+    """both matchers hand over their candidates in the same order.  The plain search walks the rule blocks and their rules in
+    declaration order; the prefix map yields the rules grouped by prefix length, so somewhere on the optimised path the candidates
+    (or the map entries) are put into declaration order by a stable sort keyed on the rule block and the rule.  Where the first of
+    several equally small candidates is taken as a guess, another order steers the iteration to another result."""
+    import json
+    prog = run.prog
+    mm = run.anchor(R, "asm::matcher::match_with_ruledef_map")
+    if mm is None:
+        return
+    fam = [mm] + [h for h in prog.real_fns() if h.id.endswith("RuledefMap::query_prefixed")]
+    fam += [h for _, h in private_helpers(mm)]
+    ok = False
+    unstable = []
+    for f in fam:
+        for bi, t in f.calls():
+            c = t.get("callee") or ""
+            if not re.search(r"::(sort_by_key|sort_by|sort_by_cached_key|sort_unstable_by_key|sort_unstable_by)(::<.*)?$", c):
+                continue
+            from mir import closure_of_origin
+            cid = closure_of_origin(f.origin_op(t["args"][1])) if len(t["args"]) == 2 else None
+            g = prog.fn(cid) if cid else None
+            if g is None:
+                continue
+            txt = json.dumps(g.raw.get("blocks"))
+            if '"ruledef_ref"' in txt and '"rule_ref"' in txt:
+                if "unstable" in c:
+                    unstable.append(f.loc(t["span"]))
+                else:
+                    ok = True
+    run.check(ok, R, R + "|matcher|candidate-order", mm.loc(), "the optimised matcher puts its candidates into declaration order (stable sort on rule block and rule)",
+              ("the optimised matcher sorts its candidates with an unstable sort (%s): several matches of one rule can change places" % ", ".join(unstable)) if unstable else
+              "match_with_ruledef_map hands over the candidates in the order of the prefix map (grouped by prefix length), the plain search in declaration order: where the first of several equally small candidates is taken as a guess (`qq {a}` and `q{s: sub} {a}` on `qq f` inside an asm block) the two switches settle on different results")
